@@ -39,7 +39,7 @@ pub struct Case {
     tail_on_x: bool, // c3 (when on joint 5) and c4 along x instead of z
     sign_mask: u32,
     axis_style: usize,  // 0 "0 0 1", 1 "0 0 1.0"/"-1.0", 2 axis element omitted where the sign is +
-    limit_style: usize, // 0 radians, 1 ${radians(d)}, 2 integers, 3 negative decimals, 4 no <limit>, 5 unreadable limit
+    limit_style: usize, // 0 radians, 1 ${radians(d)}, 2 integers, 3 negative decimals, 4 no <limit>, 5 unreadable limit, 6-8 mixed per joint
     order: usize,       // permutation index 0..720
     nesting: usize,     // 0 flat, 1 xacro:macro, 2 two levels
     naming: usize,      // see NAMES
@@ -97,6 +97,13 @@ fn limits_text(style: usize, j: usize) -> (Option<String>, f64, f64, bool) {
     // whole, half and quarter degrees, and a sub-degree range
     let degs: [(f64, f64); 6] = [(-170.0, 170.0), (-190.5, 45.25), (-137.5, 156.0), (-185.0, 185.75), (0.25, 0.75), (-350.0, 350.0)];
     let (lo, hi) = degs[j];
+    // mixed documents: only some joints carry a <limit> (a continuous joint after a limited sibling, and the reverse)
+    let style = match style {
+        6 => if j % 2 == 1 { 4 } else { 1 },
+        7 => if j == 5 { 4 } else { 0 },
+        8 => match j { 0 | 3 => 4, 2 => 5, _ => 1 },
+        s => s,
+    };
     match style {
         0 => {
             let (l, h) = ((lo.to_radians() * 1e4).round() / 1e4, (hi.to_radians() * 1e4).round() / 1e4);
@@ -389,7 +396,7 @@ pub fn run(ctx: &Ctx) -> Report {
             tail_on_x: ix[1] & 4 != 0,
             sign_mask: ((k * 7 + ix[0] * 13 + ix[2] * 3 + ix[1]) % 64) as u32,
             axis_style: (k + ix[3]) % 3,
-            limit_style: (k + ix[1]) % 6,
+            limit_style: (k + ix[1]) % 9,
             order,
             nesting: ix[3],
             naming: ix[2],
@@ -422,7 +429,7 @@ pub fn run(ctx: &Ctx) -> Report {
     rep.rule = format!(
         "generated descriptions: 6 parameter records x layouts {{c2 on z|x}} x {{c3 on joint 5|4}} x {{wrist along z|x}} x 8 naming schemes (incl. decorated, \
          upper-case, explicit one-/zero-based lists) x nesting {{flat, xacro:macro, two levels}} x {n_order} joint-order permutations, with sign pattern (64), axis \
-         syntax, limit syntax (6) and single/identical/conflicting copy rotating along the permutation axis; oracle: parameters equal the printed decimals, \
+         syntax, limit syntax (6 uniform + 3 mixed per joint: even joints only, all but J6, J1/J4 absent with J3 unreadable) and single/identical/conflicting copy rotating along the permutation axis; oracle: parameters equal the printed decimals, \
          signs, limits, solver constraints follow arc membership (no <limit> => unconstrained), conflicting copy => Err; error paths: each joint missing, \
          token corruptions => never a panic; signature = (outcome, naming, layout)"
     );
